@@ -463,3 +463,7 @@ def _witness_defaultdict(ctx):
 
 
 DIRECTED = {"defaultdict-missing-required-key": _witness_defaultdict}
+from ..suite_leg import make as _suite_leg  # noqa: E402
+
+DIRECTED["suite-under-monitors"] = _suite_leg("C20")
+
